@@ -47,6 +47,7 @@ RULE = ("seeded plans: (grid: polar / spherical with or without hole, cylindrica
 PROBES = ["faults/segments_cut_by_trackers", "probes/multiplicative_noise", "probes/milstein", "probes/implicit",
           "probes/collection_per_field_variance", "probes/nonuniform_volumes", "probes/zero_variance",
           "probes/numba_python_mode", "probes/noise_drift_term", "probes/per_component_variance",
+          "probes/variance_zero_where_its_derivative_is_not",
           "probes/library_equation", "probes/one_cell_grid", "probes/nonautonomous_rate",
           "probes/collection_field_without_noise"]
 COMPONENTS = {
@@ -282,6 +283,10 @@ def gen_plan(rng, tier, idx):
         top = 0.15 if solver != "implicit" else 0.1
         noise = {"kind": "mult", "s0": 0.0 if rng.random() < 0.25 else _gen_sig(rng) ** 2 * unit,
                  "s1": rng.uniform(0.03, top) ** 2 * unit, "spread": _pick(rng, (0.0, 0.5))}
+        if rng.random() < 0.3:
+            # demographic-type noise: variance s1*max(c, 0) with some cells exactly at zero - the variance vanishes there
+            # while its derivative does not (drift and Milstein correction stay finite and non-zero)
+            noise.update(form="ramp", zero_cells=rng.randint(1, 3), s1=noise["s1"] * 4)
     elif state["kind"] == "collection" and nk < 0.8:
         vs = [_gen_sig(rng) ** 2 * unit for _ in state["ranks"]]
         if rng.random() < 0.3:
@@ -422,6 +427,11 @@ class _Built:
             self.s1_arr = self.per_comp([float(nz["s1"]) * (1 + sp * ((i + 1) % 3) / 3) for i in range(self.K)])
             self.var_arr = None
             self.noise_arg = 0
+            self.ramp = nz.get("form") == "ramp"
+            if self.ramp:
+                self.u0 = np.abs(self.u0)
+                pos = np.random.default_rng(int(self.plan["state"].get("u0_seed", 0)) + 17).permutation(self.u0.size)
+                self.u0.flat[pos[:min(int(nz.get("zero_cells", 1)), self.u0.size - 1)]] = 0.0  # at least one entry stays non-zero
         elif kind == "scalar":
             self.var_arr = np.float64(vals[0])
             self.noise_arg = vals[0]
@@ -451,6 +461,8 @@ class _Built:
 
     def variance(self, u):
         """(variance, d variance / d field) at the state u, restated from the plan."""
+        if self.noise_kind == "mult" and getattr(self, "ramp", False):
+            return self.s1_arr * np.maximum(u, 0.0), self.s1_arr * (u >= 0.0)
         if self.noise_kind == "mult":
             return self.s0_arr + self.s1_arr * u ** 2, 2 * self.s1_arr * u
         return np.broadcast_to(self.var_arr, self.shape), np.zeros(self.shape)
@@ -512,6 +524,26 @@ def _make_equation(B: _Built, rng, deterministic: bool = False):
         return _with_interp(plan, lambda **kw: LinearSDE(noise=B.noise_arg, rng=rng, **kw))
 
     s0, s1 = B.s0_arr, B.s1_arr
+
+    if getattr(B, "ramp", False):
+
+        class RampSDE(LinearSDE):
+            """Demographic-type noise: variance s1*max(c, 0) with (right) derivative s1*(c >= 0) (client code)."""
+
+            @property
+            def is_sde(self):
+                return True
+
+            def make_noise_variance(self, state, *, backend, ret_diff=False):
+                def noise_variance(state_data, t):
+                    return s1 * np.maximum(state_data, 0.0)
+
+                def noise_variance_diff(state_data, t):
+                    return s1 * np.maximum(state_data, 0.0), s1 * (state_data >= 0.0)
+
+                return noise_variance_diff if ret_diff else noise_variance
+
+        return _with_interp(plan, lambda **kw: RampSDE(rng=rng, **kw))
 
     class MultSDE(LinearSDE):
         """Multiplicative noise: variance s0 + s1*c**2 with derivative 2*s1*c (client code)."""
@@ -741,7 +773,7 @@ def execute(plan: dict) -> dict:
     def close(got, ref, scale):
         if got.shape != ref.shape:
             return False
-        ratio = float(np.max(np.abs(got - ref) / (rtol * np.abs(ref) + rtol * scale + na_atol)))
+        ratio = float(np.max(np.abs(got - ref) / (rtol * np.abs(ref) + rtol * scale + na_atol + 1e-300)))
         state["worst"] = max(state["worst"], ratio) if ratio == ratio else math.inf
         return ratio <= 1.0
 
@@ -802,6 +834,8 @@ def execute(plan: dict) -> dict:
     if not zero:
         if B.noise_kind == "mult":
             probe("multiplicative_noise")
+            if getattr(B, "ramp", False):
+                probe("variance_zero_where_its_derivative_is_not")
         if B.noise_kind == "per_field":
             probe("collection_per_field_variance")
             if any(v == 0.0 for v in B.per_field_vars):
@@ -863,6 +897,15 @@ def execute(plan: dict) -> dict:
             traj = _reference(plan, B, [v for _, v in draws], steps, lib_rate)
             check_probe_and_final("P", p, traj, "C13/numba-step-formula")
         else:
+            # "a standard normal number per cell and component": however the numba path organises its calls, a step cannot
+            # use fewer normal numbers than the state has entries with a non-vanishing variance
+            var0, _ = B.variance(B.u0)
+            noisy = int(np.count_nonzero(np.broadcast_to(np.asarray(var0, dtype=float), B.shape)))
+            per_step = sum(int(np.size(v)) for _, v in draws) / max(steps, 1)
+            if steps > 0 and per_step < noisy:
+                fail("C13/numba-noise-not-per-component",
+                     f"numba path drew {per_step:g} normal numbers per step (calls of shapes {[list(sh) for sh, _ in draws[:4]]}) for a state of "
+                     f"shape {list(B.shape)} with {noisy} noisy entries: components or cells share their noise; {where}")
             probe("numba_draws_not_reconstructed")
         return finish()
 
@@ -1007,6 +1050,8 @@ def simplify(plan):
             yield variant(lambda p: p.update(grid={"kind": "cart", "bounds": [[0.0, 1.0]], "shape": [2], "periodic": [False]}))
     if plan["noise"]["kind"] == "mult":
         yield variant(lambda p: p.update(noise={"kind": "scalar", "vars": [p["noise"]["s0"] or p["noise"]["s1"]]}))
+        if plan["noise"].get("form") == "ramp":
+            yield variant(lambda p: [p["noise"].pop("form"), p["noise"].pop("zero_cells", None)])
         if plan["noise"].get("spread"):
             yield variant(lambda p: p["noise"].update(spread=0.0))
     elif plan["noise"]["kind"] != "scalar":
